@@ -29,7 +29,10 @@ impl Gcd for BoxedUint {
 
     fn gcd_vartime(&self, rhs: &Self) -> Self::Output {
         match Odd::<Self>::new(self.clone()).into_option() {
-            Some(odd) => odd.gcd_vartime(rhs),
+            // same result precision as `gcd`: the larger of the two operands'
+            Some(odd) => odd
+                .gcd_vartime(rhs)
+                .widen(core::cmp::max(self.bits_precision(), rhs.bits_precision())),
             None => self.gcd(rhs), // TODO(tarcieri): vartime support for even `self`?
         }
     }
